@@ -17,7 +17,10 @@ JUNK = [None, True, False, 0, 1, -1, 3.5, '', 'x', 'w0', [], [1], ['w0'], {},
         {'a': 1}, {'name': 'w0'}, 'ünï', 17, [[]], {'waiting': True}]
 RAW = [b'', b' ', b'\n\t ', b'\xff\xfe\x00', b'{', b'{"command": "sta',
        b'nul', b'[', b'"unterminated', b'{"command": "status"}}', b'\x00',
-       b'{"id": 1,}', b'\xc3\x28', b'stop', b'NaN', b'-', b'{"a": 1}{"b": 2}']
+       b'{"id": 1,}', b'\xc3\x28', b'stop', b'NaN', b'-', b'{"a": 1}{"b": 2}',
+       # nesting deeper than the parser's recursion limit
+       b'[' * 100000, b'{"command": "list", "properties": ' + b'[' * 50000,
+       b'{"a":' * 20000 + b'1' + b'}' * 20000]
 VALUES = [None, True, 0, 17, -3, 2.5, '', 'status', [], [1, 2], ['status'],
           'a string', [[]], [{}], 1e300, 'null']
 
@@ -107,7 +110,7 @@ def gen_message(rng, names):
 def expected_id(raw):
     try:
         o = json.loads(raw)
-    except (ValueError, UnicodeDecodeError):
+    except (ValueError, UnicodeDecodeError, RecursionError):
         return None, False, False
     if not isinstance(o, dict):
         return None, False, False
@@ -158,7 +161,7 @@ class C06Daemon(Episode):
     def is_killer(raw):
         try:
             o = json.loads(raw)
-        except (ValueError, UnicodeDecodeError):
+        except (ValueError, UnicodeDecodeError, RecursionError):
             return False
         if not isinstance(o, dict) or not isinstance(o.get('command'), str):
             return False
@@ -264,7 +267,7 @@ class C06Daemon(Episode):
     def classify(raw):
         try:
             o = json.loads(raw)
-        except (ValueError, UnicodeDecodeError):
+        except (ValueError, UnicodeDecodeError, RecursionError):
             return 'empty_or_blank' if not raw.strip() else 'invalid_json'
         if not isinstance(o, dict):
             return 'json_non_object'
